@@ -142,7 +142,7 @@ fn seq_blocks(len: usize) -> Vec<(usize, usize, Vec<String>, Vec<String>, Vec<us
                 cmds.push(format!("\x1b[{}{}", p, f));
             }
         }
-        let mut dims = vec![stbm.len(), 2usize];
+        let mut dims = vec![stbm.len(), 3usize];
         for _ in 0..len {
             dims.push(cmds.len());
         }
@@ -166,7 +166,7 @@ pub fn run(env: &Env) -> PropRun {
         .map(|&(cols, rows)| {
             let stbm = stbm_options(rows);
             let cmds = commands(cols, rows);
-            let dims = [stbm.len(), rows, PENS.len(), 4, 2, cmds.len()];
+            let dims = [stbm.len(), rows, PENS.len(), 4, 3, cmds.len()];
             let total = product(&dims);
             Block { cols, rows, stbm, cmds, dims, total }
         })
@@ -180,7 +180,7 @@ pub fn run(env: &Env) -> PropRun {
                 if d[3] == 3 {
                     s.push_str("\x1b[?1047h");
                 }
-                s.push_str(&gen::fill_screen(b.cols, b.rows, d[4] == 0));
+                s.push_str(&gen::fill_screen_mode(b.cols, b.rows, d[4]));
                 s.push_str(&b.stbm[d[0]]);
                 s.push_str(PENS[d[2]]);
                 s.push_str(&format!("\x1b[{};1H", d[1] + 1));
@@ -197,7 +197,7 @@ pub fn run(env: &Env) -> PropRun {
         "enum-tiny",
         total,
         true,
-        "sizes {1x1,2x2,3x3,3x4,4x5,2x6} x {no DECSTBM, every valid pair, 9 invalid/defaulted forms} x every cursor row x 3 pens x {primary unlimited, limit 0, limit 3, alternate} x {wrapped, unwrapped} content x {LF VT FF IND NEL RI (7/8-bit), wrapping print, SU/SD/IL/DL x count classes}",
+        "sizes {1x1,2x2,3x3,3x4,4x5,2x6} x {no DECSTBM, every valid pair, 9 invalid/defaulted forms} x every cursor row x 3 pens x {primary unlimited, limit 0, limit 3, alternate} x {wrapped, unwrapped, sparse (blank rows / blank row tails)} content x {LF VT FF IND NEL RI (7/8-bit), wrapping print, SU/SD/IL/DL x count classes}",
         &make,
         &j,
     ));
@@ -208,7 +208,7 @@ pub fn run(env: &Env) -> PropRun {
         for (cols, rows, stbm, cmds, dims, total) in &sb {
             if i < *total {
                 let d = radix(i, dims)?;
-                let mut s = gen::fill_screen(*cols, *rows, d[1] == 0);
+                let mut s = gen::fill_screen_mode(*cols, *rows, d[1]);
                 s.push_str(&stbm[d[0]]);
                 s.push_str("\x1b[42m");
                 let mut case = Case::new(*cols, *rows, None).feed(s);
